@@ -345,4 +345,7 @@ def run(ctx):
         "the terminal side (serverInputChan consumer, remote-listener filter applied in Terminal.Loop) is bound only "
         "through processExecution(); the full process path is driven elsewhere",
     ]
+    if not ctx.replay:
+        from props import c16_proc
+        c16_proc.run_part(ctx)
     return "model_checking"
